@@ -108,6 +108,9 @@ def run(model, tier="quick"):
     from .C10 import ledgers
     ledgers(res, model, ["withdraw", "repay"])
     # compensation handlers (rollback on a rejected step) must refund exactly what was taken
+    from .base_refs import base_helpers, wallet_access
+    res.units["wallet_access"] = wallet_access(res, model)
+    res.units["guard_primitives"] = base_helpers(res, model, ("require", "sub_base", "pm"))   # the guard forms the rule accepts
     from ..rules.rollback import rollback_rule
     res.units["compensation_handlers"] = rollback_rule(model, res)
     res.assumptions = ["indices, prices and decimals are positive (used to scale guards)",
